@@ -192,7 +192,12 @@ impl FmtAttribute {
             Some(parsing::Argument::Identifier(name)) => (self.args.len() == 1)
                 .then(|| self.args.first())
                 .flatten()
-                .filter(|a| a.alias.as_ref().map(|a| a.0 == name).unwrap_or_default())
+                .filter(|a| {
+                    a.alias
+                        .as_ref()
+                        .map(|a| a.0.unraw() == name)
+                        .unwrap_or_default()
+                })
                 .map(|a| a.expr.clone()),
         }?;
 
